@@ -3,7 +3,7 @@
 // (-DWITH_DEBUG_TYPE_CANONICALIZATION, -fno-access-control) so that the switch
 // environment::priv_->use_canonical_type_comparison_ used by libabigail's own debug
 // check is available.
-//   apiprobe_canon FILE
+//   apiprobe_canon FILE [FILE2 ...]   (all files are loaded into one environment)
 #include "probe_util.h"
 #include "abg-dwarf-reader.h"
 #include "abg-corpus.h"
@@ -34,12 +34,15 @@ int main(int argc, char** argv)
   vf::install_guards();
   environment_sptr env(new environment);
   vector<char**> di;
-  dwarf_reader::read_context_sptr ctxt = dwarf_reader::create_read_context(argv[1], di, env.get(), /*load_all_types=*/true, true);
+  vector<type_base_sptr> types;
+  std::set<type_base*> seen;
+  vector<corpus_sptr> corpora;      // every FILE is loaded into the SAME environment (one canonical-type table), like abidiff does
+  for (int k = 1; k < argc; ++k) {
+  dwarf_reader::read_context_sptr ctxt = dwarf_reader::create_read_context(argv[k], di, env.get(), /*load_all_types=*/true, true);
   elf_reader::status st = elf_reader::STATUS_UNKNOWN;
   corpus_sptr c = dwarf_reader::read_corpus_from_elf(*ctxt, st);
   if (!c) { printf("{\"evaluations\":0,\"nontrivial_count\":0,\"outcomes\":{\"not-loaded\":1},\"failures\":[],\"sig_counts\":{}}\n"); return 0; }
-  vector<type_base_sptr> types;
-  std::set<type_base*> seen;
+  corpora.push_back(c);
   for (translation_units::const_iterator tu = c->get_translation_units().begin(); tu != c->get_translation_units().end(); ++tu) {
     const type_maps& m = (*tu)->get_types();
     collect(m.basic_types(), types, seen); collect(m.class_types(), types, seen); collect(m.union_types(), types, seen);
@@ -47,7 +50,9 @@ int main(int argc, char** argv)
     collect(m.pointer_types(), types, seen); collect(m.reference_types(), types, seen); collect(m.array_types(), types, seen);
     collect(m.subrange_types(), types, seen); collect(m.function_types(), types, seen);
   }
+  }
   string file = argv[1];
+  for (int k = 2; k < argc; ++k) file += string(" ") + argv[k];
   for (size_t i = 0; i < types.size(); ++i)
     for (size_t j = i; j < types.size(); ++j) {
       type_base_sptr a = types[i], b = types[j];
